@@ -200,4 +200,25 @@ theorem lastLE_ge {key : α → Rat} (a a' : α) (rest : List α) (b : Rat) (hb 
     | cons c r => rw [List.getLast?_cons_cons]
   · rfl
 
+/-! ### `mapM` in `Option` -/
+
+theorem mapM_map {α β γ : Type} (f : α → Option β) (g : β → γ) (h : α → γ)
+    (hfg : ∀ a b, f a = some b → g b = h a) :
+    ∀ (l : List α) (l' : List β), l.mapM f = some l' → l'.map g = l.map h := by
+  intro l
+  induction l with
+  | nil => intro l' hl; simp at hl; subst hl; rfl
+  | cons a rest ih =>
+    intro l' hl
+    rw [List.mapM_cons] at hl
+    cases hfa : f a with
+    | none => simp [hfa] at hl
+    | some b =>
+      cases hr : rest.mapM f with
+      | none => simp [hfa, hr] at hl
+      | some bs =>
+        simp [hfa, hr] at hl
+        subst hl
+        simp [hfg a b hfa, ih bs hr]
+
 end C08S
